@@ -352,18 +352,22 @@ def equality_laws(ctx, tz):
     from vf import tzmodels as TM
     old = os.environ.get('TZ')
     settings = ['EST5EDT,M3.2.0,M11.1.0', 'EST5', 'XST5XDT,M3.2.0,M11.1.0', 'EST5EDT4:30,M3.2.0,M11.1.0', 'CST6CDT,M3.2.0,M11.1.0', 'EST4EDT,M3.2.0,M11.1.0']
+    settings += ['UTC+3', 'GMT-5', 'UTC0', 'GMT0']
     try:
         locals_ = []
         for s_ in settings:
             TM.set_process_tz(s_)
             locals_.append((s_, tz.tzlocal()))
+        # fixed zones join the comparison: a local zone that merely carries the name UTC / GMT is not UTC
+        locals_ += [('tz.UTC', tz.UTC), ('tzoffset(None,0)', tz.tzoffset(None, 0)), ("tzoffset('UTC',-10800)", tz.tzoffset('UTC', -10800)),
+                    ("tzoffset('GMT',18000)", tz.tzoffset('GMT', 18000))]
         for cur in settings[:3]:
             TM.set_process_tz(cur)
             for na, a in locals_:
                 for nb, b in locals_:
                     ctx.ev()
                     ctx.count('law_tzlocal_pairs')
-                    if (a == b) != (b == a):
+                    if bool(a == b) != bool(b == a):
                         ctx.violation('equality-not-symmetric', {'a': 'tzlocal@' + na, 'b': 'tzlocal@' + nb}, 'asymmetric')
                     if a == b and na != nb:
                         ctx.count('tzlocal_pairs_called_equal')
@@ -374,6 +378,25 @@ def equality_laws(ctx, tz):
                                           'the zones compare equal but report %r vs %r' % (oa[:4], ob[:4]))
     finally:
         TM.set_process_tz(old)
+    # gettz('') means "the local zone": whenever that is not a tzlocal object (TZ holds a name or a rule string) the
+    # result is shared like any other named zone
+    try:
+        for s_ in ('XST5XDT,M3.2.0,M11.1.0', 'UTC', 'Europe/London', 'QST-3'):
+            TM.set_process_tz(s_)
+            tz.gettz.cache_clear()
+            a = tz.gettz('')
+            b = tz.gettz('')
+            ctx.ev()
+            ctx.count('law_gettz_empty_name')
+            if a is None or isinstance(a, tz.tzlocal):
+                ctx.count('gettz_empty_name_is_tzlocal')
+                continue
+            if a is not b:
+                ctx.violation('two-live-objects-for-one-key', {'factory': 'gettz', 'key': '', 'TZ': s_},
+                              "gettz('') returned %r and then another object %r while the first was alive" % (a, b))
+    finally:
+        TM.set_process_tz(old)
+        tz.gettz.cache_clear()
     for name, z in pool:
         ref = behaviour(z)
         forms = [('copy', copy.copy), ('deepcopy', copy.deepcopy)] + [('pickle-%d' % p, (lambda o, p=p: pickle.loads(pickle.dumps(o, p))))
